@@ -161,9 +161,35 @@ struct CaseOut {
     outcome: u64,
 }
 
-fn run_history(tpl: &Template, hist: &[Op], queries: &[usize]) -> CaseOut {
+/// How the history reaches the node that holds the subscriptions.
+#[derive(Clone, Copy, Debug, PartialEq, serde::Serialize, serde::Deserialize)]
+enum Via {
+    /// local transactions (api_v1_transactions -> broadcast_changes -> match_changes)
+    Local,
+    /// written on another node, each version delivered complete (process_multiple_changes -> match_changes)
+    RemoteWhole,
+    /// written on another node, each multi-change version delivered as two chunks, second half
+    /// first (buffered path -> process_fully_buffered_changes -> match_changes_from_db_version)
+    RemoteChunked,
+}
+
+fn run_history(tpl: &Template, tpl_author: &Template, hist: &[Op], queries: &[usize], via: Via) -> CaseOut {
     let s = Scratch::new("subs");
     let p = tpl.instantiate(&s.path().join("n"));
+    // remote application: the author node runs the history first; its announcements are what the
+    // subscribing node receives, step by step
+    let mut authored: Vec<Vec<klukai_types::broadcast::ChangeV1>> = vec![];
+    if via != Via::Local {
+        let pa = tpl_author.instantiate(&s.path().join("a"));
+        let mut author = RtNode::open(&pa, NodeOpts::default());
+        for (k, op) in hist.iter().enumerate() {
+            let (status, body, bc) = author.run(async |nd| nd.write(op_sql(*op, k), None).await);
+            if status != 200 {
+                machinery_error(&format!("history write failed on the author: {body:?}"));
+            }
+            authored.push(bc);
+        }
+    }
     let mut node = RtNode::open(&p, NodeOpts::default());
     let hist = hist.to_vec();
     let queries = queries.to_vec();
@@ -202,9 +228,45 @@ fn run_history(tpl: &Template, hist: &[Op], queries: &[usize]) -> CaseOut {
                 let keyed = sub.q.keyed;
                 sub.keyed_before = nd.read(move |c| dump_query(c, keyed)).await;
             }
-            let (status, body, _bc) = nd.write(op_sql(*op, k), None).await;
-            if status != 200 {
-                machinery_error(&format!("history write failed: {body:?}"));
+            match via {
+                Via::Local => {
+                    let (status, body, _bc) = nd.write(op_sql(*op, k), None).await;
+                    if status != 200 {
+                        machinery_error(&format!("history write failed: {body:?}"));
+                    }
+                }
+                Via::RemoteWhole => {
+                    for c in authored[k].clone() {
+                        nd.deliver(vec![c]).await.unwrap_or_else(|e| machinery_error(&format!("delivery failed: {e}")));
+                    }
+                }
+                Via::RemoteChunked => {
+                    use klukai_types::broadcast::{ChangeV1, Changeset};
+                    for c in authored[k].clone() {
+                        let split = match &c.changeset {
+                            Changeset::Full { version, changes, seqs, last_seq, ts } if seqs.start().0 == 0 && seqs.end() == last_seq && last_seq.0 >= 1 => {
+                                let mid = last_seq.0 / 2;
+                                let a: Vec<_> = changes.iter().filter(|ch| ch.seq.0 <= mid).cloned().collect();
+                                let b: Vec<_> = changes.iter().filter(|ch| ch.seq.0 > mid).cloned().collect();
+                                let mk = |chs: Vec<klukai_types::change::Change>, lo: u64, hi: u64| ChangeV1 {
+                                    actor_id: c.actor_id,
+                                    changeset: Changeset::Full { version: *version, changes: chs, seqs: klukai_types::base::CrsqlSeq(lo)..=klukai_types::base::CrsqlSeq(hi), last_seq: *last_seq, ts: *ts },
+                                };
+                                Some((mk(a, 0, mid), mk(b, mid + 1, last_seq.0)))
+                            }
+                            _ => None,
+                        };
+                        match split {
+                            Some((a, b)) => {
+                                nd.deliver(vec![b]).await.unwrap_or_else(|e| machinery_error(&format!("delivery failed: {e}")));
+                                nd.deliver(vec![a]).await.unwrap_or_else(|e| machinery_error(&format!("delivery failed: {e}")));
+                                while nd.apply_one().await.is_some() {}
+                                while nd.clear_one().await.is_some() {}
+                            }
+                            None => nd.deliver(vec![c]).await.unwrap_or_else(|e| machinery_error(&format!("delivery failed: {e}"))),
+                        }
+                    }
+                }
             }
             for sub in subs.iter_mut() {
                 barrier(sub).await;
@@ -308,11 +370,13 @@ fn c11(cli: &Cli) {
     let rep = Report::new("C11", cli.tier, cli.seed);
     sweep_stale_scratch();
     let tpl = Template::build(0, SCHEMA);
+    let tpl_author = Template::build(1, SCHEMA);
     let all_queries: Vec<usize> = (0..QUERIES.len()).collect();
     if let Some(p) = &cli.replay {
         let r = load_replay(p);
         let hist: Vec<Op> = serde_json::from_value(r["history"].clone()).unwrap();
-        let out = run_history(&tpl, &hist, &all_queries);
+        let via: Via = serde_json::from_value(r["via"].clone()).unwrap_or(Via::Local);
+        let out = run_history(&tpl, &tpl_author, &hist, &all_queries, via);
         for (k, d) in &out.violations {
             println!("reproduced {k}: {d}");
         }
@@ -335,39 +399,70 @@ fn c11(cli: &Cli) {
     }
     // only maximal histories need to run: every prefix is checked on the way
     let hists: Vec<Vec<Op>> = hists.into_iter().filter(|h| h.len() == maxlen).collect();
-    let deadline = Instant::now() + Duration::from_secs(cli.tier.pick(55, 1700));
-    let mut execs = 0u64;
-    let mut steps = 0u64;
-    let mut capped = None;
-    let mut unsupported: Vec<&str> = vec![];
-    for h in &hists {
-        if Instant::now() > deadline {
-            capped = Some(format!("wall-clock cap after {execs} of {} histories", hists.len()));
-            break;
-        }
-        let out = run_history(&tpl, h, &all_queries);
-        execs += 1;
-        steps += (h.len() * (QUERIES.len() - out.unsupported.len())) as u64;
-        unsupported = out.unsupported.clone();
-        if !out.violations.is_empty() {
-            let again = run_history(&tpl, h, &all_queries);
-            let k1: Vec<&String> = out.violations.iter().map(|v| &v.0).collect();
-            let k2: Vec<&String> = again.violations.iter().map(|v| &v.0).collect();
-            if k1 != k2 {
-                machinery_error(&format!("non-deterministic history {h:?}: {k1:?} vs {k2:?}"));
+    // every history applied locally; applied remotely (whole versions, and chunked out of order)
+    // for every history in thorough, and in quick for those whose first step sets the stage
+    // (inserts the parent row or the child row)
+    let tier = cli.tier;
+    let hists: Vec<(Vec<Op>, Via)> = hists
+        .into_iter()
+        .flat_map(|h| {
+            let remote = tier == Tier::Thorough || matches!(h[0], Op::PIns1 | Op::CIns1);
+            let mut v = vec![(h.clone(), Via::Local)];
+            if remote {
+                v.push((h.clone(), Via::RemoteWhole));
+                v.push((h, Via::RemoteChunked));
             }
-        }
-        for (k, d) in out.violations {
-            rep.violation(&k, json!({"history": h, "d": d}));
-        }
-        rep.outcome(out.outcome);
-        if out.events > 0 {
-            rep.nontrivial(digest(&format!("{h:?}")));
-        }
-        if execs % 41 == 7 {
-            rep.sample(json!({"history": h, "events_seen": out.events}));
-        }
-    }
+            v
+        })
+        .collect();
+    let deadline = Instant::now() + Duration::from_secs(cli.tier.pick(55, 1700));
+    let via_counts: [std::sync::atomic::AtomicU64; 3] = [const { std::sync::atomic::AtomicU64::new(0) }; 3];
+    let execs_a = std::sync::atomic::AtomicU64::new(0);
+    let steps_a = std::sync::atomic::AtomicU64::new(0);
+    let skipped = std::sync::atomic::AtomicU64::new(0);
+    let unsupported_m: std::sync::Mutex<Vec<&str>> = std::sync::Mutex::new(vec![]);
+    // histories are independent executions (own node, own runtime, own matchers): run them on a few threads
+    let pool = rayon::ThreadPoolBuilder::new().num_threads(6).build().unwrap();
+    pool.install(|| {
+        use rayon::prelude::*;
+        hists.par_iter().for_each(|(h, via)| {
+            use std::sync::atomic::Ordering::Relaxed;
+            let via = *via;
+            if Instant::now() > deadline {
+                skipped.fetch_add(1, Relaxed);
+                return;
+            }
+            let out = run_history(&tpl, &tpl_author, h, &all_queries, via);
+            via_counts[via as usize].fetch_add(1, Relaxed);
+            let n = execs_a.fetch_add(1, Relaxed) + 1;
+            steps_a.fetch_add((h.len() * (QUERIES.len() - out.unsupported.len())) as u64, Relaxed);
+            *unsupported_m.lock().unwrap() = out.unsupported.clone();
+            if !out.violations.is_empty() {
+                let again = run_history(&tpl, &tpl_author, h, &all_queries, via);
+                let k1: Vec<&String> = out.violations.iter().map(|v| &v.0).collect();
+                let k2: Vec<&String> = again.violations.iter().map(|v| &v.0).collect();
+                if k1 != k2 {
+                    machinery_error(&format!("non-deterministic history {h:?}: {k1:?} vs {k2:?}"));
+                }
+            }
+            for (k, d) in out.violations {
+                rep.violation(&k, json!({"history": h, "via": via, "d": d}));
+            }
+            rep.outcome(out.outcome);
+            if out.events > 0 {
+                rep.nontrivial(digest(&format!("{h:?}{via:?}")));
+            }
+            if n % 41 == 7 {
+                rep.sample(json!({"history": h, "via": via, "events_seen": out.events}));
+            }
+        });
+    });
+    let execs = execs_a.load(std::sync::atomic::Ordering::Relaxed);
+    let steps = steps_a.load(std::sync::atomic::Ordering::Relaxed);
+    let unsupported = unsupported_m.lock().unwrap().clone();
+    let via_counts: Vec<u64> = via_counts.iter().map(|a| a.load(std::sync::atomic::Ordering::Relaxed)).collect();
+    let sk = skipped.load(std::sync::atomic::Ordering::Relaxed);
+    let capped = if sk > 0 { Some(format!("wall-clock cap: {sk} of {} (history, way of application) pairs not run", hists.len())) } else { None };
     rep.set("states", execs);
     rep.set("transitions", steps);
     rep.set("evaluations", steps);
@@ -378,7 +473,7 @@ fn c11(cli: &Cli) {
     if let Some(c) = capped {
         rep.set("cap_hit", c);
     }
-    rep.set("bounds", json!({"operations": OPS.len(), "history_len": maxlen, "application": "local transactions (api_v1_transactions -> broadcast_changes -> match_changes)"}));
+    rep.set("bounds", json!({"operations": OPS.len(), "history_len": maxlen, "application": {"local": via_counts[0], "remote_whole_versions": via_counts[1], "remote_chunked_out_of_order": via_counts[2]}}));
     rep.assume("quiescence without timing: a barrier batch of 1000 non-existent keys is pushed through the subscription's own candidate channel (reaches the matcher's immediate-processing threshold) and the harness waits for the matcher.batch_done emit");
     rep.assume("'result did not change' is judged on the query extended with the primary keys of its tables (row identity), so a row replaced by an identical-looking row of another key counts as a change");
     rep.require_nontrivial(20, "a history is non-trivial when at least one change event was emitted by some subscription");
